@@ -235,6 +235,136 @@ fn volume_scenario(n: usize, capture: bool, policy: u8) -> Verdict {
     e3::finish(v)
 }
 
+/// Turnover while the proxy runs: client C0 makes one round trip, then a second connection announces the same identity
+/// (kind 1: while the first is still open; kind 2: after the first has closed and the proxy has seen it; kind 3: the
+/// same for the only worker's identity on the back side; kind 0: a new client under a new identity, as a control) and
+/// sends two requests; a bystander client works before and after. Every request is forwarded exactly once, every
+/// connection receives exactly the echoes of what it sent, proxy() keeps running.
+fn turnover_scenario(kind: u8, capture: bool, policy: u8) -> Verdict {
+    world::reset(world::WorldCfg { nested_env: true, yields: true, select: true, policy, coop: false });
+    // (connection, identity, index used in the payload tags, how many requests, gate)
+    let c0a = e3::raw_conn("C0a");
+    let c1 = e3::raw_conn("C1");
+    let c0b = e3::raw_conn("C0b");
+    let w0a = e3::raw_conn("W0a");
+    let w0b = e3::raw_conn("W0b");
+    let cap = e3::raw_conn("CAP");
+    c0a.send(&rc::handshake("REQ", Some(b"C0")));
+    c0a.gate("round1");
+    c0a.send(&rc::encode_message(&request(0, 0)));
+    c1.send(&rc::handshake("REQ", Some(b"C1")));
+    c1.gate("round1");
+    c1.send(&rc::encode_message(&request(1, 0)));
+    c1.gate("round2");
+    c1.send(&rc::encode_message(&request(1, 1)));
+    c0b.send(&rc::handshake("REQ", Some(if kind == 0 { &b"C2"[..] } else { &b"C0"[..] })));
+    c0b.gate("round2");
+    c0b.send(&rc::encode_message(&request(2, 0)));
+    c0b.send(&rc::encode_message(&request(2, 1)));
+    w0a.send(&rc::handshake("REP", Some(b"W0")));
+    e3::make_echo_peer(w0a);
+    w0b.send(&rc::handshake("REP", Some(b"W0")));
+    e3::make_echo_peer(w0b);
+    cap.send(&rc::handshake("PULL", Some(b"CAP")));
+    let frontend = RouterSocket::new();
+    let backend = DealerSocket::new();
+    let capture_sock = PushSocket::new();
+    let (fbe, bbe, cbe) = (frontend.backend(), backend.backend(), capture_sock.backend());
+    let proxy_result = std::rc::Rc::new(std::cell::RefCell::new(None::<String>));
+    let pr2 = proxy_result.clone();
+    let (fbe2, bbe2) = (fbe.clone(), bbe.clone());
+    world::spawn_app("setup+proxy", async move {
+        let r = e3::attach_raw(bbe.clone(), w0a).await;
+        world::log(format!("attach(worker) -> {}", e3::ok_or_err(&r)));
+        if capture {
+            let r = e3::attach_raw(cbe.clone(), cap).await;
+            world::log(format!("attach(capture peer) -> {}", e3::ok_or_err(&r)));
+        }
+        for c in [c0a, c1] {
+            let r = e3::attach_raw(fbe.clone(), c).await;
+            world::log(format!("attach(client) -> {}", e3::ok_or_err(&r)));
+        }
+        world::set_cond("round1");
+        world::set_cond("proxy-starts");
+        let capbox: Option<Box<dyn zeromq::CaptureSocket>> = if capture { Some(Box::new(capture_sock)) } else { drop(capture_sock); None };
+        let r = zeromq::proxy(frontend, backend, capbox).await;
+        *pr2.borrow_mut() = Some(format!("{:?}", r.map_err(|e| e3::err_class(&e))));
+    });
+    world::spawn_app("director", async move {
+        world::wait_cond("proxy-starts").await;
+        // round 1 runs to completion
+        world::idle().await;
+        if kind == 2 {
+            c0a.eof();
+            world::idle().await;
+        }
+        if kind == 3 {
+            let r = e3::attach_raw(bbe2, w0b).await;
+            world::log(format!("attach(second connection of the worker's identity) -> {}", e3::ok_or_err(&r)));
+        } else {
+            let r = e3::attach_raw(fbe2, c0b).await;
+            world::log(format!("attach(second connection) -> {}", e3::ok_or_err(&r)));
+        }
+        world::set_cond("round2");
+    });
+    let end = world::run(e3::HORIZON);
+    let mut v = Verdict::default();
+    v.truncated = end != world::RunEnd::Quiescent;
+    let what = format!(
+        "proxy(ROUTER, DEALER, capture={}) with one echo worker, a bystander client and client C0 making a round trip; then {}; policy {}",
+        capture,
+        ["a new client under a new identity connects and sends two requests", "a second connection announces C0's identity while the first is still open and sends two requests", "C0's connection closes, the proxy sees it, a new connection announces the same identity and sends two requests", "a second connection announces the worker's identity on the back side; the bystander goes on"][kind as usize % 4],
+        policy
+    );
+    for p in world::panics() {
+        v.violate("panic", format!("{}: {}", what, p));
+    }
+    if v.truncated {
+        v.violate("spin", format!("{}: no quiescence", what));
+    }
+    if let Some(r) = proxy_result.borrow().as_ref() {
+        v.violate("turnover/proxy-returned", format!("{}: proxy() returned {}", what, r));
+    }
+    let wires: Vec<Vec<Vec<Vec<u8>>>> = vec![w0a.tap_messages(), w0b.tap_messages()];
+    let second_id: &[u8] = if kind == 0 { b"C2" } else { b"C0" };
+    // (connection, identity, tag index, requests it sent)
+    let mut senders: Vec<(e3::RawConn, &[u8], usize, usize)> = vec![(c0a, b"C0", 0, 1), (c1, b"C1", 1, 2)];
+    if kind != 3 {
+        senders.push((c0b, second_id, 2, 2));
+    }
+    let mut canon = Vec::new();
+    for (conn, id, c, n) in &senders {
+        let mut want_replies = Vec::new();
+        for j in 0..*n {
+            let mut want = vec![id.to_vec()];
+            want.extend(request(*c, j));
+            let count: usize = wires.iter().map(|t| t.iter().filter(|m| **m == want).count()).sum();
+            if count != 1 {
+                v.violate(
+                    if count == 0 { "turnover/request-not-forwarded" } else { "turnover/request-forwarded-more-than-once" },
+                    format!("{}: request {} of connection {} appears {} times on the worker wires as {}", what, j, c, count, rc::show_frames(&want)),
+                );
+            }
+            want_replies.push(request(*c, j));
+        }
+        let got = conn.tap_messages();
+        if got != want_replies {
+            let class = if got.iter().any(|m| !want_replies.contains(m)) { "turnover/foreign-or-modified-reply" } else if got.len() < want_replies.len() { "turnover/reply-not-forwarded" } else { "turnover/reply-forwarded-more-than-once-or-out-of-order" };
+            v.violate(class, format!("{}: connection {} received {:?}, expected the echoes {:?}", what, c, got.iter().map(|m| rc::show_frames(m)).collect::<Vec<_>>(), want_replies.iter().map(|m| rc::show_frames(m)).collect::<Vec<_>>()));
+        }
+        canon.push(format!("c{}:{}", c, got.len()));
+    }
+    if capture {
+        let total: usize = senders.iter().map(|s| s.3).sum();
+        let ct = cap.tap_messages();
+        if ct.len() != 2 * total {
+            v.violate("turnover/capture-incomplete", format!("{}: capture wire carries {} messages, expected {}", what, ct.len(), 2 * total));
+        }
+    }
+    v.outcome_hash = rc::fnv(canon.join("|").as_bytes()) ^ rc::fnv(format!("{:?}", wires.iter().map(|t| t.len()).collect::<Vec<_>>()).as_bytes());
+    e3::finish(v)
+}
+
 fn pj(p: &Params) -> Value {
     json!({"clients": p.clients, "workers": p.workers, "capture": p.capture, "policy": p.policy, "backpressure": p.backpressure})
 }
@@ -255,6 +385,10 @@ pub fn run(tier: Tier, replay: Option<String>) -> i32 {
     if let Some(path) = replay {
         let v: Value = serde_json::from_str(&std::fs::read_to_string(&path).expect("read")).expect("json");
         return crate::replay::replay_e3(&v, |p| {
+            if p["scenario"] == "turnover" {
+                let (k, c, pol) = (p["kind"].as_u64()? as u8, p["capture"].as_bool()?, p["policy"].as_u64()? as u8);
+                return Some(std::sync::Arc::new(move || turnover_scenario(k, c, pol)) as zvcore::explore::Scenario);
+            }
             if p["scenario"] == "volume" {
                 let (n, c, pol) = (p["n"].as_u64()? as usize, p["capture"].as_bool()?, p["policy"].as_u64()? as u8);
                 return Some(std::sync::Arc::new(move || volume_scenario(n, c, pol)) as zvcore::explore::Scenario);
@@ -293,13 +427,21 @@ pub fn run(tier: Tier, replay: Option<String>) -> i32 {
             }
         }
     }
+    // peers come and go while the proxy runs (identities re-used on either side)
+    for kind in 0..4u8 {
+        for capture in [false, true] {
+            for policy in 0..3u8 {
+                jobs.push(e3::job(format!("C15/turnover/kind{}/cap{}/policy{}", kind, capture, policy), json!({"scenario":"turnover","kind":kind,"capture":capture,"policy":policy}), tier.pick(1, 2), tier.pick(200_000, 2_000_000), move || turnover_scenario(kind, capture, policy)));
+            }
+        }
+    }
     e3::run_jobs_into(&mut ck, jobs, false);
     let ex = ck.coverage.get("e3_executions").and_then(|v| v.as_u64()).unwrap_or(0);
     ck.cov("states", ck.coverage.get("e3_distinct_outcomes").and_then(|v| v.as_u64()).unwrap_or(0).max(1));
     ck.cov("transitions", ex);
     ck.cov("traces_validated_against_impl", ex);
     ck.cov("exhaustive", ck.coverage.get("e3_scenarios_capped").and_then(|v| v.as_u64()) == Some(0));
-    ck.cov("explanation", "the real proxy(RouterSocket, DealerSocket, capture) with capture in {none, PushSocket with a raw PULL peer}, 1-2 raw REQ-like clients (2 requests each, payloads of 1-3 frames incl. empty frames) and 1-2 raw REP-like echo workers, under every schedule within the deviation bound from 3 default policies INCLUDING both select! branch orders at every iteration (choice point through the vendored futures-util seam), yield points and deliveries landing inside pipe reads (both sides ready in the same poll). Oracle from the reference-decoded wires: every request appears exactly once on some worker's wire as [client-id, \"\", payload...], per client in order; every client's wire carries exactly the echoes of its own requests as [\"\", payload...]; the capture wire holds a copy of each forwarded message (both directions); proxy() does not return. Plus a scale family: one client pipelining 130 / 1100 / 2100 (thorough: up to 5000) requests before the proxy polls that side, one echo worker answering all at once — every request and reply forwarded exactly once, in order, capture complete (drives any batching logic in the proxy loop past typical limits such as 128, 1000, 2048). states = distinct observed outcomes.");
+    ck.cov("explanation", "the real proxy(RouterSocket, DealerSocket, capture) with capture in {none, PushSocket with a raw PULL peer}, 1-2 raw REQ-like clients (2 requests each, payloads of 1-3 frames incl. empty frames) and 1-2 raw REP-like echo workers, under every schedule within the deviation bound from 3 default policies INCLUDING both select! branch orders at every iteration (choice point through the vendored futures-util seam), yield points and deliveries landing inside pipe reads (both sides ready in the same poll). Oracle from the reference-decoded wires: every request appears exactly once on some worker's wire as [client-id, \"\", payload...], per client in order; every client's wire carries exactly the echoes of its own requests as [\"\", payload...]; the capture wire holds a copy of each forwarded message (both directions); proxy() does not return. Plus a scale family: one client pipelining 130 / 1100 / 2100 (thorough: up to 5000) requests before the proxy polls that side, one echo worker answering all at once — every request and reply forwarded exactly once, in order, capture complete (drives any batching logic in the proxy loop past typical limits such as 128, 1000, 2048). Plus a turnover family: while the proxy runs a second connection announces a client's identity (first connection still open / closed and seen) or the worker's identity, or a new client joins; every request forwarded exactly once, every connection gets exactly the echoes of what it sent, proxy() keeps running. states = distinct observed outcomes.");
     ck.assume("requests are released once all workers are attached (forwarding, not routing without workers, is the subject)");
     ck.conclude()
 }
